@@ -57,6 +57,7 @@ type CheckCtx struct {
 	Exhaustive  bool
 	Technique   string
 
+	devRun         bool
 	NontrivialStat string // stats key (counted by the trace specification) capping distinct_nontrivial
 
 	Violations []*Violation
@@ -231,6 +232,9 @@ func dedupe(in []string) []string {
 }
 
 func (c *CheckCtx) writeEvidence(nviol int) error {
+	if _, ok := registry[c.Prop]; !ok || c.devRun {
+		return nil // development / self-test contexts never write evidence
+	}
 	cov := map[string]any{}
 	var st, tr int64
 	for _, m := range c.Models {
